@@ -135,10 +135,7 @@ Print Assumptions C20_export_dims.
 
 (* --- trimming (--export-area-drawing), as fixed by cbe5ba7 ------------------------------------------- *)
 Theorem C20_trim_no_panic : forall fit doc canvas c,
-  pixmap_new_ok canvas = true -> is_h canvas <= I32_MAX ->
-  (let '(x, y, w, h) := c in let t := fit_to_transform fit doc in
-   q_to_int_rect (x * t_sx t)%Q (y * t_sy t)%Q (w * t_sx t)%Q (h * t_sy t)%Q <> None) ->
-  exists s, trim fit doc canvas c = ROk s.
+  pixmap_new_ok canvas = true -> is_h canvas <= I32_MAX -> exists s, trim fit doc canvas c = ROk s.
 Proof. exact trim_no_panic. Qed.
 Print Assumptions C20_trim_no_panic.
 
@@ -148,29 +145,39 @@ Theorem C20_trim_within_canvas : forall fit doc canvas c s,
 Proof. exact trim_within_canvas. Qed.
 Print Assumptions C20_trim_within_canvas.
 
-Theorem C20_trim_shape : c20_trim_shape_ok = true /\ c20_trim_fallback_ok = true.
-Proof. split; vm_compute; reflexivity. Qed.
+Theorem C20_trim_shape : c20_trim_shape_ok = true /\ c20_trim_fallback_ok = true /\ c20_draw_guard_ok = true.
+Proof. repeat split; vm_compute; reflexivity. Qed.
 Print Assumptions C20_trim_shape.
 
-(* --- "never crashes": refuted for the faithful model (three witnesses), guarded by the known classes ----- *)
-Theorem C20_no_panic_refuted_target : args_valid (args_w 1000000000) = true /\
-  process (args_w 1000000000) doc_20x10 = (Panic PPixmapNew, false) /\ k_target_overflow (args_w 1000000000) doc_20x10 = true.
-Proof. exact no_panic_refuted_target. Qed.
-Print Assumptions C20_no_panic_refuted_target.
+(* --- "never crashes": the four panic classes are fixed (925640f, 57970e3, 71df1bd, dd6e054).  Full strength up to the
+   resource assumption that the canvas has at most i32::MAX rows (a taller one needs >= 8 GiB of pixels) ------------- *)
+Theorem C20_no_panic : forall a e, canvas_height_fits_i32 a e = true -> forall p, fst (process a e) <> Panic p.
+Proof. exact no_panic. Qed.
+Print Assumptions C20_no_panic.
 
-Theorem C20_no_panic_refuted_area_drawing : args_valid args_adraw = true /\
-  process args_adraw env_far = (Panic PToIntRect, false) /\ k_content_overflow args_adraw env_far = true.
-Proof. exact no_panic_refuted_area_drawing. Qed.
-Print Assumptions C20_no_panic_refuted_area_drawing.
+Theorem C20_no_panic_without_trim : forall a e, a_area_drawing a = false -> forall p, fst (process a e) <> Panic p.
+Proof. exact no_panic_without_trim. Qed.
+Print Assumptions C20_no_panic_without_trim.
 
-Theorem C20_no_panic_refuted_area_page : args_valid args_apage = true /\
-  process args_apage env_far = (Panic PDrawOffset, false) /\ k_offset_overflow args_apage env_far = true.
-Proof. exact no_panic_refuted_area_page. Qed.
-Print Assumptions C20_no_panic_refuted_area_page.
+(* every .unwrap()/.expect() of main.rs is a reviewed one; Pixmap::new is checked with `?`, draw_pixmap is guarded *)
+Theorem C20_unwrap_ledger : unwrap_ledger_ok = true.
+Proof. exact unwrap_ledger. Qed.
+Print Assumptions C20_unwrap_ledger.
 
-Theorem C20_no_panic_guarded : forall a e, known_panic_class a e = false -> forall p, fst (process a e) <> Panic p.
-Proof. exact no_panic_guarded. Qed.
-Print Assumptions C20_no_panic_guarded.
+(* regression witnesses of the fixed classes *)
+Example C20_fixed_target_overflow : args_valid (args_w 1000000000) = true /\
+  process (args_w 1000000000) doc_20x10 = (Exit1 ETargetTooLarge, false).
+Proof. exact fixed_target_overflow. Qed.
+Example C20_fixed_area_drawing : process args_adraw env_far = (Exit0 (Some {| is_w := 20; is_h := 10 |}), true).
+Proof. exact fixed_area_drawing. Qed.
+Example C20_fixed_area_page : process args_apage env_far = (Exit0 (Some {| is_w := 20; is_h := 10 |}), true).
+Proof. exact fixed_area_page. Qed.
+Example C20_fixed_stdout_write :
+  process (mk_args None None None None true true true false false false false)
+          {| e_read_ok := true; e_gunzip_ok := true; e_utf8_ok := true; e_xml_ok := true; e_tree := Some (20 # 1, 10 # 1)%Q; e_ids := 1%nat;
+             e_node := NodeMissing; e_content := (2 # 1, 2 # 1, 5 # 1, 5 # 1)%Q; e_encode_ok := true; e_write_ok := false |}
+  = (Exit1 EWrite, false).
+Proof. exact fixed_stdout_write. Qed.
 
 (* --- non-vacuity ------------------------------------------------------------------------------------ *)
 Example C20_run_w7 : process (args_w 7) doc_20x10 = (Exit0 (Some {| is_w := 7; is_h := 4 |}), true).
